@@ -112,6 +112,11 @@ SetTag1(k) == /\ SetTagP(k, IF Has(k) THEN Get(k) ELSE S(""))
 SetTagFrom(k, k2) == /\ SetTagP(k, IF Has(k2) THEN Get(k2) ELSE N)
                      /\ UNCHANGED meas /\ lastop' = Op("set_tag_from", k, k2, N, "")
 
+\* set_tag(k, <value without a string form>): an attribute expression (which has no value) or a list that cannot be
+\* rendered (it holds an infinity).  The key still becomes a tag - an empty one - and stops being a field.
+SetTagUnconv(k, how) == /\ SetTagP(k, S(""))
+                        /\ UNCHANGED meas /\ lastop' = Op("set_tag_unconv", k, "", N, how)
+
 DropKey(k) == /\ (IF Has(k) THEN DeleteP(k) ELSE UNCHANGED <<meta, fields, tags>>)
               /\ UNCHANGED meas /\ lastop' = Op("drop_key", k, "", N, "")
 
@@ -148,6 +153,7 @@ Init == /\ meta = (InitField :> [dt |-> "int", flag |-> "field"]) @@ (InitTag :>
 Next == \E k \in Keys :
           \/ \E v \in ArgValues : AddKey(k, v)
           \/ SetTagLit(k, "x") \/ SetTag1(k) \/ DropKey(k) \/ SetMeasDel(k)
+          \/ \E how \in {"attr", "inflist"} : SetTagUnconv(k, how)
           \/ \E k2 \in Keys \ {k} : SetTagFrom(k, k2) \/ Rename(k, k2)
           \/ \E T \in CastTypes : Cast(k, T)
 Spec == Init /\ [][Next]_vars
